@@ -23,6 +23,7 @@ CONSTANTS
   MaxDup = 0
   Engine = "engine"
   GateUsage = FALSE
+  UsageFaults = FALSE
 INIT Init
 NEXT Next
 VIEW View
